@@ -20,7 +20,7 @@ package main
 //@   ensures[empty-nothing] recLen(readLine, delim) == 0 ==> pubCount == old(pubCount)
 // (the converse - a non-empty record reaches every producer - needs the visited set of the map range
 //  in a loop invariant, which the contract language cannot name: see ENGINE GAPS in NOTES.md)
-//@   modifies readLine, pubCount, lastPubTopic, lastPubBody
+//@   modifies readLine, pubCount, lastPubTopic, lastPubBody, rPos, jbrErr, jbrLeft
 //@   loop 0
 //@     invariant[each-publish-exact] pubCount > old(pubCount) ==> lastPubBody == line && lastPubTopic == *topic
 //@     invariant[count] pubCount >= old(pubCount)
